@@ -292,3 +292,24 @@ func TestOptions(t *testing.T) {
 		}
 	})
 }
+
+// TestOptionsConstructs runs the option cube on the construct-adjacency documents.
+func TestOptionsConstructs(t *testing.T) {
+	cfgs := []gen.Config{{}, {GFM: true, DefList: true, Footnote: true, Typo: true, TableAlign: 1, AutoID: true, Attr: true}}
+	n := gen.EnumConstructDocs(kit.Thorough(), func(idx int, doc []byte) {
+		if !kit.Mine(idx) {
+			return
+		}
+		for _, cfg := range cfgs {
+			c := kit.NewCase("options", cfg.String()).B("src", doc)
+			lastEdits = [3]int{}
+			if kit.Check(t, c) {
+				kit.R.Class("gen:exhaustive-constructs")
+				if lastEdits[0]+lastEdits[1]+lastEdits[2] > 0 {
+					kit.R.NonTrivial(c)
+				}
+			}
+		}
+	})
+	kit.R.Note("exhaustive_constructs", n)
+}
